@@ -47,7 +47,7 @@ type Cfg struct {
 	ReadOnly  bool `json:"ro,omitempty"`
 	NoWriteBE bool `json:"nowbe,omitempty"` // read-only variant B: writeOps=nil, getFileBuffer=nil, level "" (what `serve http` does)
 	TapeMode  bool `json:"tapemode,omitempty"`
-	Foreign   bool `json:"foreign,omitempty"` // compose with the foreign key set (wrong-key experiments)
+	Foreign   bool `json:"foreign,omitempty"`   // compose with the foreign key set (wrong-key experiments)
 	Overwrite bool `json:"overwrite,omitempty"` // drive manager constructed with overwrite=true (what `stfs operation initialize` does): the first writer truncates, no later one may
 }
 
@@ -82,8 +82,9 @@ var errInjected = errors.New("verif: injected fault")
 
 // Fault is one armed single fault.
 type Fault struct {
-	Class string `json:"class"` // dwrite | dwrite-short | dread | persist | cache | src | openw | openr | cachenew
-	K     int    `json:"k"`     // fires at the K-th (1-based) event of that class counted from Arm()
+	Class  string `json:"class"`            // dwrite | dwrite-short | dread | persist | cache | src | openw | openr | cachenew
+	K      int    `json:"k"`                // fires at the K-th (1-based) event of that class counted from Arm()
+	Sticky bool   `json:"sticky,omitempty"` // once fired, every later event on the same resource fails too until Disarm
 }
 
 type WEv struct {
@@ -95,13 +96,14 @@ type WEv struct {
 type Seams struct {
 	progress atomic.Int64
 
-	mu      sync.Mutex
-	cnt     map[string]int
-	fault   *Fault
-	fired   bool
-	driveSz int64
-	wlog    []WEv
-	logW    bool
+	mu         sync.Mutex
+	cnt        map[string]int
+	fault      *Fault
+	fired      bool
+	stickyHits int
+	driveSz    int64
+	wlog       []WEv
+	logW       bool
 
 	perturb    func(point string) // C11 schedule perturbation; nil otherwise
 	persistGor []int64            // goroutine id per persister call (C11 interleaving signature)
@@ -141,6 +143,7 @@ func (s *Seams) Disarm() (fired bool) {
 	defer s.mu.Unlock()
 	fired = s.fired
 	s.fault = nil
+	s.stickyHits = 0
 	return
 }
 
@@ -161,6 +164,10 @@ func (s *Seams) hit(class string) error {
 			s.fired = true
 			err = errInjected
 		}
+	} else if s.fault != nil && s.fired && s.fault.Sticky && faultGroup(class) == faultGroup(s.fault.Class) {
+		// a resource that failed once keeps failing for the rest of the call (dead drive, full disk, locked database)
+		s.stickyHits++
+		err = errInjected
 	}
 	p := s.perturb
 	s.mu.Unlock()
@@ -168,6 +175,19 @@ func (s *Seams) hit(class string) error {
 		p(class)
 	}
 	return err
+}
+
+// faultGroup names the resource a seam class belongs to.
+func faultGroup(class string) string {
+	switch class {
+	case "dwrite", "dwrite-short", "dread", "openw", "openr", "closew", "closer":
+		return "drive"
+	case "cache", "cachenew", "cacheclean":
+		return "cache"
+	case "src", "srcclose":
+		return "src"
+	}
+	return class
 }
 
 func (s *Seams) isShort() bool {
